@@ -350,3 +350,80 @@ Proof.
   intros H. unfold reshape_F. apply (flatten_of_F_list (snd a []) sh' (flatten_F a)).
   unfold flatten_F. now rewrite map_length, enum_F_length.
 Qed.
+
+(* ------------------------------------------------------------------ the "no scaling" decision *)
+From NV Require Import C01.Tables.
+Open Scope Z_scope.
+
+(* table fact (re-proved over the regenerated matrix): a safe cast between integer-like dtypes
+   never narrows the range *)
+Definition cast_sound_pair (m d : ndt) : bool :=
+  negb (is_intlike m && is_intlike d && mem_pair (dt_id m) (dt_id d) can_cast_table)
+  || ((int_min d <=? int_min m) && (int_max m <=? int_max d)).
+Lemma can_cast_int_sound :
+  forallb (fun m => forallb (cast_sound_pair m) dtypes) dtypes = true.
+Proof. vm_compute. reflexivity. Qed.
+
+Lemma intlike_has_zero : forallb (fun d => negb (is_intlike d) || ((int_min d <=? 0) && (0 <=? int_max d))) dtypes = true.
+Proof. vm_compute. reflexivity. Qed.
+
+(* finite_range() is consistent with the two flags derived from it *)
+Definition info_ok (m : ndt) (i : dinfo) : Prop :=
+  (allzero i = true -> imn i = 0 /\ imx i = 0)
+  /\ (is_intlike m = true -> size0 i = false -> int_min m <= imn i /\ imn i <= imx i /\ imx i <= int_max m).
+
+Lemma no_scaling_params c m d i : scaling_needed can_cast_table c m d i = NoScale ->
+  writer_params can_cast_table c m d i = Some (1, 0).
+Proof. intros H. unfold writer_params. now rewrite H. Qed.
+
+Lemma scaling_base c m d i : scaling_needed can_cast_table c m d i = NoScale ->
+  base_scaling_needed can_cast_table m d i = NoScale
+  \/ (c <> WPlain /\ nofinite i = true /\ base_scaling_needed can_cast_table m d i = Scale).
+Proof.
+  unfold scaling_needed. destruct c; [now left| |];
+    (destruct (base_scaling_needed can_cast_table m d i); [now left| |discriminate];
+     destruct (nofinite i); [right; repeat split; discriminate|discriminate]).
+Qed.
+
+(* integer -> integer without scaling: the values fit the target, the write is a cast (the clip of
+   the int->int branch of array_to_file is the identity on them) *)
+Lemma no_scaling_int_fits c m d i : In m dtypes -> In d dtypes ->
+  is_intlike m = true -> is_intlike d = true -> info_ok m i -> size0 i = false -> nofinite i = false ->
+  scaling_needed can_cast_table c m d i = NoScale ->
+  int_min d <= imn i /\ imx i <= int_max d
+  /\ (forall v, imn i <= v <= imx i -> clip_cast m d v = v)
+  /\ (write_route can_cast_table m d = RDirect \/ write_route can_cast_table m d = RClipCast).
+Proof.
+  intros Hm Hd Im Id [Hz Hr] Hs Hnf H. specialize (Hr Im Hs). destruct Hr as (R1 & R2 & R3).
+  assert (Fit : int_min d <= imn i /\ imx i <= int_max d).
+  { destruct (scaling_base _ _ _ _ H) as [B|(_ & N & _)]; [|congruence].
+    pose proof can_cast_int_sound as S. rewrite forallb_forall in S. specialize (S m Hm).
+    rewrite forallb_forall in S. specialize (S d Hd). unfold cast_sound_pair in S. rewrite Im, Id in S. cbn [andb] in S.
+    pose proof intlike_has_zero as Zr. rewrite forallb_forall in Zr. specialize (Zr d Hd). rewrite Id in Zr. cbn [negb orb] in Zr.
+    unfold base_scaling_needed in B. unfold is_intlike in Im, Id.
+    destruct (dt_kind m) eqn:Km; try discriminate; destruct (dt_kind d) eqn:Kd; try discriminate;
+      (destruct (mem_pair (dt_id m) (dt_id d) can_cast_table);
+       [cbn [negb orb] in S; lia|];
+       rewrite Hs in B; destruct (allzero i) eqn:Az;
+       [destruct (Hz eq_refl) as [-> ->]; lia|];
+       destruct ((int_min d <=? imn i) && (imx i <=? int_max d)) eqn:F; [lia|discriminate]). }
+  split; [apply Fit|]. split; [apply Fit|]. split.
+  - intros v Hv. unfold clip_cast. lia.
+  - unfold write_route. unfold is_intlike in Im, Id.
+    destruct (dt_kind m) eqn:Km; try discriminate; destruct (mem_pair _ _ _); auto;
+      destruct (dt_kind d) eqn:Kd; try discriminate; unfold is_intlike; rewrite Km; auto.
+Qed.
+
+(* float -> integer is stored without scaling only for empty, all-zero or (slope writers) wholly
+   non-finite data *)
+Lemma no_scaling_float_to_int c m d i : dt_kind m = DFloat -> is_intlike d = true ->
+  scaling_needed can_cast_table c m d i = NoScale ->
+  mem_pair (dt_id m) (dt_id d) can_cast_table = true \/ size0 i = true \/ allzero i = true
+  \/ (c <> WPlain /\ nofinite i = true).
+Proof.
+  intros Km Id H. destruct (scaling_base _ _ _ _ H) as [B|(Hc & N & _)]; [|right; right; right; now split].
+  unfold base_scaling_needed in B. rewrite Km in B. unfold is_intlike in Id.
+  destruct (dt_kind d); try discriminate;
+    (destruct (mem_pair _ _ _); [now left|]; destruct (size0 i); [right; now left|];
+     destruct (allzero i); [right; right; now left|discriminate]).
+Qed.
